@@ -411,4 +411,71 @@ inductive MSteps : Heap × Memo → Heap × Memo → Prop where
   | nil (s) : MSteps s s
   | cons {s1 s2 s3} : MStep s1 s2 → MSteps s2 s3 → MSteps s1 s3
 
+
+/-! ## (e) the `_id`-keyed cache of `subst_bound`
+
+`Abs(x, T, body).subst_bound(t)` for a CLOSED argument `t` (`t.is_open()` false: `t` itself is put
+at the occurrences of the bound variable), run on the heap as written: `rec(s, n)` returns atoms
+unchanged, replaces `Bound n` by the object `t`, allocates `Bound(i-1)` for `i > n`, and for `Comb` /
+`Abs` nodes first consults `cache[(s._id, n)]`, then recurses, re-uses `s` when the children came
+back identical (`fun_s._id == s.fun._id and …`), else allocates a new node, and stores the result
+under `(s._id, n)`.  `keyDepth = false` is the variant whose key forgets the binder depth `n`. -/
+
+abbrev Cache := List ((Addr × Nat) × Addr)
+
+def sameId (h : Heap) (a b : Addr) : Bool :=
+  match h a, h b with
+  | some oa, some ob => oa.id == ob.id
+  | _, _ => false
+
+def allocNext (h : Heap) (c : Cache) (as : List Addr) (n : Node) : Option (Heap × Cache × List Addr × Addr) :=
+  match as with
+  | [] => none
+  | a :: rest => (alloc h a n).map (fun h' => (h', c, rest, a))
+
+def sbHeap (keyDepth : Bool) (ua : Addr) :
+    Nat → Heap → Cache → List Addr → Addr → Nat → Option (Heap × Cache × List Addr × Addr)
+  | 0, _, _, _, _, _ => none
+  | fuel + 1, h, c, as, s, n =>
+    match h s with
+    | none => none
+    | some o =>
+      match o.node with
+      | .svar _ _ => some (h, c, as, s)
+      | .var _ _ => some (h, c, as, s)
+      | .const _ _ => some (h, c, as, s)
+      | .bound i =>
+        if i = n then some (h, c, as, ua)
+        else if i > n then allocNext h c as (.bound (i - 1))
+        else some (h, c, as, s)
+      | .comb f x =>
+        let key := (o.id, if keyDepth then n else 0)
+        match c.lookup key with
+        | some r => some (h, c, as, r)
+        | none =>
+          match sbHeap keyDepth ua fuel h c as f n with
+          | none => none
+          | some (h1, c1, as1, f') =>
+            match sbHeap keyDepth ua fuel h1 c1 as1 x n with
+            | none => none
+            | some (h2, c2, as2, x') =>
+              if sameId h2 f' f && sameId h2 x' x then some (h2, (key, s) :: c2, as2, s)
+              else
+                match allocNext h2 c2 as2 (.comb f' x') with
+                | none => none
+                | some (h3, c3, as3, a) => some (h3, (key, a) :: c3, as3, a)
+      | .abs nm T b =>
+        let key := (o.id, if keyDepth then n else 0)
+        match c.lookup key with
+        | some r => some (h, c, as, r)
+        | none =>
+          match sbHeap keyDepth ua fuel h c as b (n + 1) with
+          | none => none
+          | some (h1, c1, as1, b') =>
+            if sameId h1 b' b then some (h1, (key, s) :: c1, as1, s)
+            else
+              match allocNext h1 c1 as1 (.abs nm T b') with
+              | none => none
+              | some (h2, c2, as2, a) => some (h2, (key, a) :: c2, as2, a)
+
 end Holpy.C03
